@@ -4,6 +4,7 @@
 set -e
 cd "$(dirname "$0")"
 export CARGO_NET_OFFLINE=true
+[ -e repo-link ] || ln -s "${LACE_REPO:-/repo}" repo-link
 (cd lean && lake build Lace lacemodel)
 (cd harness && cargo build --offline)
-cargo build --offline --manifest-path /repo/Cargo.toml --target-dir /verif/target/repo
+cargo build --offline --manifest-path repo-link/Cargo.toml --target-dir target/repo
